@@ -2,8 +2,18 @@
 
 PROPS = {}
 
+NOT_APPLICABLE = {
+    "C05": "whole-framework data-race freedom over all goroutine interleavings (goroutine creation, channels, errgroup, ants pool, real epoll) has no finite SMT encoding within reach of a hand-written go/ssa encoder; see DESIGN.md section 6",
+    "C06": "liveness/ordering of shutdown across the stop goroutine, every loop goroutine, ticker and errgroup.Wait needs the same whole-program concurrent model as C05; sequential lemmas are decided under C04/C03; see DESIGN.md section 6",
+}
+for _p in ("C01", "C02", "C03", "C04", "C07", "C08", "C10", "C11", "C12", "C13", "C14", "C15", "C16", "C17", "C18", "C19"):
+    NOT_APPLICABLE.setdefault(_p, "check not built yet in this session (work in progress, see DESIGN.md section 10)")
+
 PROPS["C20"] = {
     "level": "other",
+    "level_text": "SMT decision over the full machine-word input space of the real loop-free arithmetic functions (bit-vector semantics from go/ssa): unsat of the negated specification = holds for every int/uint32 argument; no sampling, no bound on the inputs.",
+    "level_note": "Trusted: go/ssa lowering, the SSA->SMT translation (validated by native replay of every counterexample and by the self-test), z3; math/bits.Len* is modelled by its specification. linux/amd64 (64-bit int) only.",
+    "design_ref": "DESIGN.md section 5 (C20)",
     "explanation": "Symbolic execution (bit-vector back end, full machine width) of the real go/ssa of pkg/math, byteslice.index, ringbuffer.index and internal/gfd against independently written specifications; the functions are loop-free so there is no unwinding bound.",
     "bounds": {"ints": "full 64-bit / 32-bit machine words (no restriction)", "loops": "none in code under test; spec loops are concrete (63 iterations)"},
     "outside": ["ClosestPowerOfTwo for n > 2^62 (no upper neighbour representable; function panics)", "32-bit platforms"],
@@ -13,5 +23,20 @@ PROPS["C20"] = {
         {"name": "byteslice", "pkgdir": "pkg/pool/byteslice", "files": ["harness/byteslice/c20_index.go"], "mode": "bv"},
         {"name": "rbpool", "pkgdir": "pkg/pool/ringbuffer", "files": ["harness/rbpool/c20_index.go"], "mode": "bv"},
         {"name": "gfd", "pkgdir": "internal/gfd", "files": ["harness/gfd/c20_gfd.go"], "mode": "bv", "unskip_pkgs": ["internal"], "skip_pkgs": ["internal/abi", "internal/reflectlite", "internal/cpu", "internal/goarch", "internal/unsafeheader", "internal/byteorder"]},
+    ],
+}
+
+PROPS["C09"] = {
+    "level": "other",
+    "level_text": "Bounded symbolic execution of the real ring.Buffer code: one inductive step per operation from an arbitrary valid state (symbolic size <= 2^31, cursors, content), every path obligation discharged by z3; covers all histories because the representation invariant is re-proved after every operation.",
+    "level_note": "Trusted: go/ssa lowering, SSA->SMT translation (counterexamples replayed natively), z3. byteslice.Get/Put are replaced by the contract that C12 establishes on the real pool code. Reader/writer behaviour limited to the io.Reader/io.Writer contracts, <= 3 reader calls per ReadFrom.",
+    "design_ref": "DESIGN.md section 5 (C09)",
+    "explanation": "One inductive step of every ring.Buffer operation, symbolically executed from go/ssa, from an arbitrary state satisfying the representation invariant (symbolic size, cursors, content); the invariant is re-established, so a pass covers operation histories of any length. Byte content is compared pointwise at a free index (Skolemised forall). Readers/writers are nondeterministic within the io.Reader/io.Writer contracts.",
+    "bounds": {"sizes": "buffer size and argument lengths in [0, 2^31]", "reader_calls": "<= 3 reader calls per ReadFrom (environment assumption)", "grow_loop": "<= 6 iterations, unwinding checked (exceeding it makes the run inconclusive)"},
+    "outside": ["sizes > 2^31", "readers returning m > len(p) or m < 0 (the code panics on purpose)", "writers returning m > len(p)"],
+    "assumptions": ["sync.Pool returns nil or a previously Put element (exclusive)", "append() capacity growth is unspecified (fresh symbol >= needed)", "go/ssa lowering is faithful"],
+    "units": [
+        {"name": "ring", "pkgdir": "pkg/buffer/ring", "files": ["harness/ring/c09_ring.go"], "mode": "int", "contracts": ["byteslice"],
+         "cfg": {"vcfg": {"reader_calls": 2}}, "cfg_thorough": {"vcfg": {"reader_calls": 3}}},
     ],
 }
